@@ -287,7 +287,16 @@ StartArgs(what, args) ==
 GoAny(S) == \E u \in S : st' = Tick(u)
 
 EvPrim  == IsEv /\ X.e = "prim"  /\ GoAny(StartArgs([w |-> "prim", op |-> X.op], X.args))
-EvCall  == IsEv /\ X.e = "call"  /\ GoAny(StartArgs([w |-> "call", fi |-> X.fi], X.args))
+(* f(a1, .., ak, p == v, ..): the first k parameters take the positional arguments, a named one takes its  *)
+(* keyword argument, every other one the default value of its declaration (fn.defs[i], a constant)   *)
+CallArgs(x) ==
+  LET fn == P.funs[x.fi] n == Len(fn.ps) IN
+  IF Len(x.args) = n /\ "kw" \notin DOMAIN x THEN x.args
+  ELSE [i \in 1..n |->
+          IF i <= Len(x.args) THEN x.args[i]
+          ELSE LET m == IF "kw" \in DOMAIN x THEN {j \in 1..Len(x.kw) : x.kw[j].p = fn.ps[i]} ELSE {} IN
+               IF m # {} THEN x.kw[CHOOSE j \in m : TRUE].v ELSE fn.defs[i]]
+EvCall  == IsEv /\ X.e = "call"  /\ GoAny(StartArgs([w |-> "call", fi |-> X.fi], CallArgs(X)))
 EvCallV == IsEv /\ X.e = "callv" /\ GoAny(StartArgs([w |-> "callv"], <<X.f>> \o X.args))
 (* print << a << b is the application <<(<<(print, a), b).  Like every application its    *)
 (* two operands -- the shorter chain and the last item -- may be evaluated in either order; *)
